@@ -291,7 +291,7 @@ def compare(src, dst, caps, tag, what_ran):
     s = {o[0]: o for o in src}
     d = {o[0]: o for o in dst}
     exp = {p: o for p, o in s.items() if TYPECH.get(o[1], "?") in caps["types"]}
-    if tag == "lib-iso9660" and b"rr_moved" in d and b"rr_moved" not in s:
+    if tag in ("lib-iso9660", "bsdtar-iso9660") and b"rr_moved" in d and b"rr_moved" not in s:
         # Rock Ridge relocation of a directory below level 8 is not undone on reading when the relocated directory
         # has a long name: its contents stay under /rr_moved (bsdtar --format iso9660 shows the same); everything
         # else that differs is a consequence
@@ -396,7 +396,7 @@ def cli_pipelines(ctx):
         "bsdcpio-newc":  lambda src, dst: "cd %s && find . -depth -print | %s -o -H newc | (cd %s && %s -idm)" % (q(src), c, q(dst), c),
         # bsdtar's own copy loop (tar/write.c) in front of the writers that take the stored length from the bytes they are given
         **{"bsdtar-" + f: (lambda src, dst, f=f: "%s -cf %s --format %s -C %s . && %s -xpf %s -C %s; rc=$?; rm -f %s; exit $rc" %
-                           (t, q(dst + ".arc"), f + (" --options iso9660:rockridge=strict" if f == "iso9660" else ""), q(src), t, q(dst + ".arc"), q(dst), q(dst + ".arc")))   # (the default, rockridge=useful, normalises modes and owners by design)
+                           (t, q(dst + ".arc"), f + (" --options " + q("iso9660:rockridge=strict,iso9660:!joliet") if f == "iso9660" else ""), q(src), t, q(dst + ".arc"), q(dst), q(dst + ".arc")))   # (the default, rockridge=useful, normalises modes and owners by design; Joliet limits a full path to 240 bytes - as in the library pipeline it is switched off)
            for f in ("zip", "iso9660", "7zip", "xar", "newc")},
     }
 
